@@ -10,6 +10,9 @@
 //!   fakefn <id> near|far <ret>                synthetic fake, within / beyond 2 GiB of target 0
 //!   fakefn_rel <id> <target> <disp> <ret>     synthetic fake at EXACTLY trampoline(target) + disp, where the
 //!                                             trampoline address is learnt from a trial installation on <target>
+//!   fakeecho <id> near|far                    synthetic fake `mov rax,[rsp+8]; ret`: returns its FIRST STACK-PASSED argument
+//!   callstack <target> <sentinel>             call <target> with two stack-passed arguments (7th = sentinel); the (faked)
+//!                                             callee must receive the 7th argument where the ABI puts it
 //!   new | drop                                create / drop the InjectorPP
 //!   raw <target> <fake>                       when_called_unchecked(..).will_execute_raw_unchecked(..)
 //!   bool <target> <0|1>                       when_called(sig "fn() -> bool").will_return_boolean(v)
@@ -53,6 +56,33 @@ unsafe fn map_at(hint: usize, len: usize, fixed: bool) -> *mut u8 {
 }
 
 /// place `mov eax, ret; ret` (padded with int3 to 16 bytes) at page offset `off` of a fresh r-x arena
+unsafe fn make_echo(near: usize) -> Option<usize> {
+    let f = make_func(None, 0x100, 0, Some(near))?;
+    let page = f & !(PAGE - 1);
+    if libc::mprotect(page as *mut _, PAGE, libc::PROT_READ | libc::PROT_WRITE) != 0 {
+        return None;
+    }
+    let code: [u8; 6] = [0x48, 0x8B, 0x44, 0x24, 0x08, 0xC3];
+    std::ptr::copy_nonoverlapping(code.as_ptr(), f as *mut u8, 6);
+    libc::mprotect(page as *mut _, PAGE, libc::PROT_READ | libc::PROT_EXEC);
+    Some(f)
+}
+
+unsafe fn call_stackarg(addr: usize, sentinel: u64) -> u64 {
+    let r: u64;
+    core::arch::asm!(
+        "push {a8}", "push {a7}",
+        "mov rdi, 1", "mov rsi, 2", "mov rdx, 3", "mov rcx, 4", "mov r8, 5", "mov r9, 6",
+        "call rax",
+        "add rsp, 16",
+        a7 = in(reg) sentinel, a8 = in(reg) 0x8888_8888u64,
+        inout("rax") addr => r,
+        out("rdi") _, out("rsi") _, out("rdx") _, out("rcx") _, out("r8") _, out("r9") _, out("r10") _, out("r11") _,
+        clobber_abi("sysv64"),
+    );
+    r
+}
+
 unsafe fn make_func(addr: Option<usize>, off: usize, ret: u32, near: Option<usize>) -> Option<usize> {
     let len = 3 * PAGE;
     let mut base = std::ptr::null_mut();
@@ -254,6 +284,29 @@ fn run(scn: &str) -> i32 {
                             println!("step {ln}: SETUP-FAILED cannot place fake");
                             return 9;
                         }
+                    }
+                }
+                "fakeecho" => {
+                    let base = first.unwrap_or(0x10000000);
+                    let near = if w[2] == "far" { base.wrapping_add(0x1_8000_0000) & 0x7fff_ffff_f000 } else { base.wrapping_add(96 * PAGE) };
+                    match make_echo(near) {
+                        Some(f) => {
+                            println!("step {ln}: echo fake {} at {f:#x}", w[1]);
+                            funcs.insert(w[1].to_string(), f);
+                        }
+                        None => {
+                            println!("step {ln}: SETUP-FAILED cannot place echo fake");
+                            return 9;
+                        }
+                    }
+                }
+                "callstack" => {
+                    let sentinel: u64 = w[2].parse().unwrap();
+                    let got = call_stackarg(funcs[w[1]], sentinel);
+                    println!("step {ln}: callstack {} -> callee saw 7th argument = {got:#x} (caller passed {sentinel:#x})", w[1]);
+                    if got != sentinel {
+                        println!("MISMATCH at step {ln}: the fake received {got:#x} as its first stack-passed argument, the caller supplied {sentinel:#x}");
+                        return 3;
                     }
                 }
                 "fakefn_rel" => {
